@@ -271,6 +271,21 @@ def explore_case(case, res, timeout_ms=4000, max_paths=4000, deadline=None, moni
             continue
         if len(ctx.trail) > 0 or payload.get('cons'):
             res.nontrivial += 1
+        if npaths in VALIDATE_PATHS:
+            # Validation of the encoding, and the only place where Python's int/float distinction shows (range(2.0),
+            # list[2.0], randint(1, 3.0) are type errors the type-agnostic proxies never see): the first paths of
+            # every case are also run on the plain numbers of a model of their path condition and judged concretely.
+            vmodel = ctx.path_model()
+            if vmodel is not None:
+                vvals = concrete_values(case, ctx.model_values(vmodel))
+                vmsg = judge_concrete(case, prog, slots, vvals, extra_concrete)
+                res.extra['validation_runs'] = res.extra.get('validation_runs', 0) + 1
+                if vmsg is not None:
+                    text = text_with_values(case, vvals)
+                    res.violation('%s|%s' % (case.tag, _sig_of(vmsg)),
+                                  '%s\n  shape: %s\n  found by the concrete validation run on a model of a path the solver had passed\n  script:\n%s'
+                                  % (vmsg, case.tag, text), inputs={'script': text, 'values': vvals}, replayed=True)
+                    return
         mm = payload.get('mismatch')
         cons = payload.get('cons', [])
         if mm is None and not cons:
@@ -309,6 +324,7 @@ def explore_case(case, res, timeout_ms=4000, max_paths=4000, deadline=None, moni
     res.sample({'tag': case.tag, 'script': case.text[:400], 'paths': npaths})
 
 
+VALIDATE_PATHS = (1, 2)
 REGIONS = [None, ('<', 0), ('>', 0), ('>', 360), ('<', -360), ('>', 65535), ('>', 100)]
 
 
